@@ -110,6 +110,18 @@ func (p *Prog) valState(v ssa.Value, at, pred *ssa.BasicBlock, depth int) NilSta
 		if nonNilErrCtor(x.Call.StaticCallee()) {
 			return NonNil
 		}
+		// status.New(code != OK, …).Err() is never nil
+		if f := x.Call.StaticCallee(); f != nil && FuncKey(f) == "(*google.golang.org/grpc/internal/status.Status).Err" || f != nil && FuncKey(f) == "(*google.golang.org/grpc/status.Status).Err" {
+			if len(x.Call.Args) > 0 {
+				if nc, ok := x.Call.Args[0].(*ssa.Call); ok {
+					if nf := nc.Call.StaticCallee(); nf != nil && (FuncKey(nf) == "google.golang.org/grpc/status.New" || FuncKey(nf) == "google.golang.org/grpc/status.Newf") {
+						if k, ok := nc.Call.Args[0].(*ssa.Const); ok && k.Value != nil && k.Value.ExactString() != "0" {
+							return NonNil
+						}
+					}
+				}
+			}
+		}
 	case *ssa.UnOp:
 		if x.Op == token.MUL {
 			if g, ok := x.X.(*ssa.Global); ok && p.Sentinel(g) {
